@@ -231,3 +231,8 @@ TEXT["C14"]["text"] += (" C14_heap_object_map_keys/_identity/_distinct_keys: the
 for _p in ("C05", "C06"):
     TEXT[_p]["text"] += (" %s_typed_programs_never_ill_typed: a program that passes the decidable step-wise type check and the storing discipline never takes the model's "
                          "'ill-typed' escape (OBad), so every outcome the runner compares is a real prediction." % _p)
+TEXT["C17"]["text"] += (" C17_heap_reverse_in_place / C17_heap_sort_in_place: on the heap, Reverse and Sort write exactly the receiver's own cell - the same cell "
+                        "afterwards holds the reversed / sorted sequence (every alias sees it, the identity is unchanged), every other cell and register is as before, "
+                        "nothing is allocated, a panicking Sort changes nothing.")
+TEXT["C01"]["text"] += (" C01_heap_parse_back_list/_object: for a container living in a heap whose tree is in the domain, the text of String() parses to exactly the "
+                        "tree that the model's Clone step rebuilds in cells allocated by that step.")
